@@ -212,6 +212,18 @@ CHECKS["C16"] = dict(engine="E1", cat="model_checking", design="4/C16",
                      note="fixed file/entity alphabet; expected issues computed with the library's Sidecar/TabularInput "
                           "validation on reference-merged sidecars")
 
+CHECKS["C13"] = dict(engine="E1", cat="model_checking", design="4/C13",
+                     technique="bounded exhaustive enumeration of annotations per schema member x pairings x prefix "
+                               "assignments, relational (group vs. schema alone) comparison of code multisets",
+                     text="For 4 (thorough 7) offline pairings x 4 prefix assignments, every tag of each member schema's XML "
+                          "(short, lower-case, long; with value) plus every forest of <= 3 leaves over a pool with invalid "
+                          "leaves is validated with all tags prefixed under the group and unprefixed under that schema alone: "
+                          "equal multisets of (code, severity); unloaded / non-alphabetic / wrong-case prefixes must give "
+                          "TAG_NAMESPACE_PREFIX_INVALID; every standard tag of a partnered library keeps its attributes and "
+                          "classes and every library tag of the XML is present; same library twice and clashing names under "
+                          "one prefix are refused, disjoint libraries are merged.",
+                     note="annotation size bounded; definitions not used under prefixes")
+
 PENDING_REASON = "check not built yet in this revision (planned in DESIGN.md section 4); not claimed until it is"
 
 
